@@ -16,11 +16,19 @@ below say that whatever `replay` ends in is true of the L0 machine (BB/Spec.lean
 number of base steps.  The check then compares the real run's verdict (kind, slot, marks, and -
 when no rule was applied - steps, cycles, blank record) with the replay's.
 
-An `infrul` verdict that comes from an all-non-negative rule has no certificate in the code's
-output; the replay can only confirm that the configuration in which it was given is reached
-(`replay_limit`), the verdict itself stays falsifiable only (see DESIGN.md).
+`replay` validates applications with `checkApp` only, at a cost that grows with the number of
+times the rule was applied; `replaySym` (same loop, same theorems: section "Big applications and
+infinite rules") falls back on the symbolic validator `Sym.validateApp` (C03, last section) when
+`checkApp` runs over budget, so that applications of any size are accepted.
 
-Property theorems only; helper lemmas live in BB/Lemmas/ValidateTrace.lean.
+An `infrul` verdict that comes from an all-non-negative rule has no certificate in the code's
+output; the replay confirms that the configuration in which it was given is reached
+(`replaySym_limit`), and the verdict itself is certified from there by the symbolic validator
+`Sym.validateInf` (`validate_inf_sound`, `replaySym_limit_inf`): when it answers `true` the machine
+provably never halts; when it does not, the verdict stays falsifiable only (see DESIGN.md).
+
+Property theorems only; helper lemmas live in BB/Lemmas/ValidateTrace.lean and
+BB/Lemmas/SymRule1-5.lean.
 -/
 import BB.Lemmas.ValidateTrace
 
@@ -85,7 +93,7 @@ application (cycle 228) replayed, then the plain simulator to the cycle limit. -
 def exC02Prog : Prog :=
   [((0,0),(1,true,1)), ((0,1),(2,false,0)), ((0,2),(1,true,0)), ((0,3),(1,true,0)),
    ((1,0),(1,false,1)), ((1,1),(1,false,0)), ((1,2),(3,true,1))]
-def exC02App : AppRec := ⟨228, 0, ⟨3, [⟨3,19⟩,⟨1,1⟩], [⟨2,22⟩]⟩, ⟨3, [⟨3,1⟩,⟨1,1⟩], [⟨2,52⟩]⟩⟩
+def exC02App : AppRec := ⟨228, 0, ⟨3, [⟨3,19⟩,⟨1,1⟩], [⟨2,22⟩]⟩, ⟨3, [⟨3,1⟩,⟨1,1⟩], [⟨2,52⟩]⟩, 6⟩
 
 example : replay exC02Prog 1000 230 [exC02App]
     = (.limit 0 ⟨2, [⟨1,1⟩,⟨3,1⟩,⟨1,1⟩], [⟨2,51⟩]⟩ 2732, []) := by decide +kernel
@@ -96,5 +104,100 @@ example : (replay exC02Prog 1000 230 [{ exC02App with cycle := 227 }]).1 = .appM
     5 executed steps (cycle 5), 4 marks -/
 example : replay [((0,0),(1,true,1)), ((0,1),(1,false,1)), ((1,0),(1,false,0))] 10 100 []
     = (.undfnd 5 (1, 1) 4 5, []) := by decide
+
+/-! ### Big applications and infinite rules
+
+`replaySym` is `replay` with the application validator `vaSym`: `checkApp` first and, when that
+runs over budget, the symbolic validator `Sym.validateApp` with the reported `times` (the replay
+loop is generic over the validator; all it uses is that an accepted application is a run of real
+machine steps).  Whatever `replaySym` ends in is true of the L0 machine, exactly as for `replay`. -/
+
+/-- **replaySym_undfnd.**  `replay_undfnd` for `replaySym`. -/
+theorem replaySym_undfnd (p : Prog) (budget lim : Nat) (apps : List AppRec) (cyc q s m n : Nat)
+    (bl : List (Nat × Nat)) (h : replaySym p budget lim apps = (.undfnd cyc (q, s) m n, bl)) :
+    HaltsAt p.toF n q s ∧ (∃ c, RunAt p.toF n c ∧ c.marks = m) ∧
+      (∀ j c, j < n → RunAt p.toF j c → ¬ SpinOutCfg p.toF c) ∧ cyc < lim :=
+  replaySym_undfnd' p budget lim apps cyc q s m n bl h
+
+/-- **replaySym_spnout.**  `replay_spnout` for `replaySym`. -/
+theorem replaySym_spnout (p : Prog) (budget lim : Nat) (apps : List AppRec) (cyc m n : Nat)
+    (bl : List (Nat × Nat)) (h : replaySym p budget lim apps = (.spnout cyc m n, bl)) :
+    (∃ c, RunAt p.toF n c ∧ SpinOutCfg p.toF c ∧ c.marks = m) ∧
+      (∀ j c, j < n → RunAt p.toF j c → ¬ SpinOutCfg p.toF c) ∧ cyc < lim :=
+  replaySym_spnout' p budget lim apps cyc m n bl h
+
+/-- **replaySym_blankRec.**  `replay_blankRec` for `replaySym`. -/
+theorem replaySym_blankRec (p : Prog) (budget lim : Nat) (apps : List AppRec) (cyc q n : Nat)
+    (bl : List (Nat × Nat)) (h : replaySym p budget lim apps = (.blankRec cyc q n, bl)) :
+    BlankAfter p.toF n q ∧ NeverHalts p.toF :=
+  replaySym_blankRec' p budget lim apps cyc q n bl h
+
+/-- **replaySym_limit.**  `replay_limit` for `replaySym`: if all `lim` cycles are replayed, the L0
+    machine is after exactly `n` steps in the configuration `(q, t)` the replay stands in (up to
+    trailing blanks), `t` is canonical, and neither a halt nor a spin-out configuration was met
+    before. -/
+theorem replaySym_limit (p : Prog) (budget lim : Nat) (apps : List AppRec) (q : Nat) (t : Tape)
+    (n : Nat) (bl : List (Nat × Nat)) (h : replaySym p budget lim apps = (.limit q t n, bl)) :
+    (∃ c, RunAt p.toF n c ∧ c ≈c t.toCfg q) ∧ t.Canon ∧
+      (∀ j c, j < n → RunAt p.toF j c → ¬ SpinOutCfg p.toF c) :=
+  replaySym_limit' p budget lim apps q t n bl h
+
+/-- **replaySym_blanks.**  `replay_blanks` for `replaySym`. -/
+theorem replaySym_blanks (p : Prog) (budget lim : Nat) (apps : List AppRec) (e : ReplayEnd)
+    (bl : List (Nat × Nat)) (h : replaySym p budget lim apps = (e, bl)) :
+    (∀ q n, (q, n) ∈ bl → BlankAfter p.toF n q) ∧ (bl.map (·.1)).Nodup :=
+  replaySym_blanks' p budget lim apps e bl h
+
+/-- **replaySym_no_apps.**  `replay_no_apps` for `replaySym`. -/
+theorem replaySym_no_apps (p : Prog) (budget lim : Nat) (e : ReplayEnd) (bl : List (Nat × Nat))
+    (h : replaySym p budget lim [] = (e, bl)) :
+    (∀ c w, e ≠ .badApp c w) ∧ (∀ c, e ≠ .appMismatch c) :=
+  replaySym_no_apps' p budget lim e bl h
+
+/-- **validate_inf_sound.**  If `validateInf` accepts `(q, t)`, the L0 machine started on the cells
+    of `t` in state `q` never reaches an undefined instruction (it runs for ever), and if `t` is
+    canonical it never reaches a spin-out configuration either. -/
+theorem Sym.validate_inf_sound (p : Prog) (q : Nat) (t : Tape) (budget : Nat)
+    (h : Sym.validateInf p q t budget = true) :
+    (∀ n, ∃ c, stepN p.toF n (t.toCfg q) = some c) ∧
+      (t.Canon → ∀ n c, stepN p.toF n (t.toCfg q) = some c → ¬ SpinOutCfg p.toF c) :=
+  Sym.validate_inf_sound' p q t budget h
+
+/-- **replaySym_limit_inf.**  An infinite-rule verdict, certified: if the replay reaches `(q, t)`
+    (all `lim` cycles replayed) and `validateInf` accepts `(q, t)` - from there a rule that never
+    decreases a block applies for ever - then the L0 machine started on the blank tape never halts
+    and never reaches a spin-out configuration. -/
+theorem replaySym_limit_inf (p : Prog) (budget lim : Nat) (apps : List AppRec) (q : Nat)
+    (t : Tape) (n : Nat) (bl : List (Nat × Nat)) (budget' : Nat)
+    (h : replaySym p budget lim apps = (.limit q t n, bl))
+    (hinf : Sym.validateInf p q t budget' = true) :
+    NeverHalts p.toF ∧ ¬ SpinsOut p.toF :=
+  replaySym_limit_inf' p budget lim apps q t n bl budget' h hinf
+
+/-! Non-vacuity.  With a budget of 60 cycles `checkApp` cannot validate the application of
+`exC02App` (it needs 72 cycles): `replay` refuses it, `replaySym` validates it symbolically and
+ends exactly as `replay` does with a sufficient budget. -/
+
+example : (replay exC02Prog 60 230 [exC02App]).1 = .badApp 228 .overBudget := by decide +kernel
+example : replaySym exC02Prog 60 230 [exC02App]
+    = (.limit 0 ⟨2, [⟨1,1⟩,⟨3,1⟩,⟨1,1⟩], [⟨2,51⟩]⟩ 2732, []) := by decide +kernel
+/-- a wrong `times` is refused -/
+example : (replaySym exC02Prog 60 230 [{ exC02App with times := 5 }]).1
+    = .badApp 228 .overBudget := by decide +kernel
+
+/-- the bouncer `1RB 1LA  1LA 1RB`: after 7 cycles (10 steps) it is in state A on `[0] 1^4`; from
+    there the rule `A: [0] 1^(4+x) → [0] 1^(6+x)` (found by plain simulation, validated
+    symbolically for all `x ≥ 0`) applies for ever -/
+def exC02Bouncer : Prog :=
+  [((0,0),(1,true,1)), ((0,1),(1,false,0)), ((1,0),(1,false,0)), ((1,1),(1,true,1))]
+
+example : replaySym exC02Bouncer 100 7 [] = (.limit 0 ⟨0, [], [⟨1,4⟩]⟩ 10, []) := by decide +kernel
+example : Sym.validateInf exC02Bouncer 0 ⟨0, [], [⟨1,4⟩]⟩ 100 = true := by decide +kernel
+example : NeverHalts exC02Bouncer.toF ∧ ¬ SpinsOut exC02Bouncer.toF :=
+  replaySym_limit_inf exC02Bouncer 100 7 [] 0 ⟨0, [], [⟨1,4⟩]⟩ 10 [] 100 (by decide +kernel)
+    (by decide +kernel)
+/-- a halting machine has no infinite rule: `validateInf` answers `false` along its run -/
+example : Sym.validateInf exC02Prog 0 ⟨2, [⟨1,1⟩,⟨3,1⟩,⟨1,1⟩], [⟨2,51⟩]⟩ 200 = false := by
+  decide +kernel
 
 end BB
